@@ -2,6 +2,7 @@
    Statements: model/KeepSpec.v; proofs: proofs/KeepProofs.v. *)
 From Aqua Require Import Base Json Air Trace Handler Values Scalars Lens Exec RunExec ExecCases KeepSpec.
 From Aqua Require Import ExecStreams KeepProofs KeepHandler KeepExec KeepStreams.
+From Aqua Require SeqLocal NetLin NetLinCases NetLinProofs.
 Open Scope N_scope.
 Open Scope list_scope.
 
@@ -116,6 +117,22 @@ Example C09_windows_not_consumed_loses :
              keeps_both_b string String.eqb prev [] (k_result string (h_keeper string h')) = false.
 Proof. cbv zeta. split; [vm_compute; reflexivity |]. eexists. split; vm_compute; reflexivity. Qed.
 
+(* ---- history level, straight-line scripts on several peers (model/NetLin.v: the approximation invariant) ----
+   In EVERY honest history of a straight-line script, across every step, the executed / failed states a host holds
+   are a prefix of the full sequential trace that never shrinks: nothing is forgotten. *)
+Theorem C09_linear_nothing_forgotten : forall svc init ts ttl,
+    NetLin.lin_nothing_forgotten svc init ts ttl RunExec.run1 /\
+    NetLin.lin_nothing_forgotten svc init ts ttl ExecStreams.run2.
+Proof.
+  intros. split; apply NetLinProofs.nothing_forgotten_gen; [apply NetLinProofs.run1_step | apply NetLinProofs.run2_step].
+Qed.
+
+Example C09_linear_nothing_forgotten_example :
+  map (fun k => (NetLin.exlen (NetLinCases.nlx_host_trace (NetLinCases.nlx_history k) "A"),
+                 NetLin.exlen (NetLinCases.nlx_host_trace (NetLinCases.nlx_history k) "B"))) (seq 0 11) =
+  [(0, 0); (0, 0); (1, 0); (1, 1); (1, 2); (1, 3); (3, 3); (3, 3); (3, 3); (4, 3); (4, 3)]%nat.
+Proof. vm_compute. reflexivity. Qed.
+
 Print Assumptions C09_stores.
 Print Assumptions C09_state_keep_call.
 Print Assumptions C09_state_keep_canon.
@@ -132,3 +149,4 @@ Print Assumptions C09_compactification_keeps.
 Print Assumptions C09_stage1_hook.
 Print Assumptions C09_stores_stream_hook.
 Print Assumptions C09_stores_run2.
+Print Assumptions C09_linear_nothing_forgotten.
